@@ -107,4 +107,12 @@ PROPS = {
             R("h23", "c19", "TestC19_APIError", (20000, 2), (1000000, 8, 3000)),
         ],
     },
+    "C03": {
+        "level": "exploration",
+        "units": [
+            R("h23", "c03", "TestC03_Head", (20000, 8), (500000, 16, 3000)),
+            R("h23", "c03", "TestC03_PublisherHead", (3000, 2), (100000, 8, 3000)),
+        ],
+        "fuzz": [{"mod": "h23", "pkg": "c03", "target": "FuzzC03_Head", "secs": 300}],
+    },
 }
